@@ -382,7 +382,8 @@ def _shard_entry(args):
     mod = importlib.import_module(modname)
     ctx = Ctx(pid, tier, seed, shard)
     if os.environ.get('VERIF_WATCHDOG'):
-        # diagnosis only: dump the Python stack of this shard every N seconds (a case that never returns shows up here)
+        # diagnosis only: dump the Python stack of this shard every N seconds (a case that never returns shows up here).
+        # Not for unattended runs: a dump taken while lark's generated code was on the stack crashed one worker process.
         import faulthandler
 
         faulthandler.dump_traceback_later(int(os.environ['VERIF_WATCHDOG']), repeat=True, file=open(f'/tmp/hplverif-watchdog-{pid}-{shard}.txt', 'w'))
@@ -402,9 +403,16 @@ def run_sharded(ctx, modname, fname, nshards, extra=()):
         results = [_shard_entry(args[0])]
     else:
         import multiprocessing as mp
+        from concurrent.futures import ProcessPoolExecutor
+        from concurrent.futures.process import BrokenProcessPool
 
-        with mp.get_context('fork').Pool(min(nshards, os.cpu_count() or 1)) as pool:
-            results = pool.map(_shard_entry, args, chunksize=1)
+        # (an executor, not multiprocessing.Pool: if a worker process dies, the run ends as a harness error instead of
+        # waiting for its result forever)
+        try:
+            with ProcessPoolExecutor(max_workers=min(nshards, os.cpu_count() or 1), mp_context=mp.get_context('fork')) as pool:
+                results = list(pool.map(_shard_entry, args, chunksize=1))
+        except BrokenProcessPool as e:
+            raise HarnessError(f'a shard process of {modname}.{fname} died ({e})')
     for r in results:
         if 'harness_error' in r:
             raise HarnessError(r['harness_error'])
